@@ -530,6 +530,13 @@ class Gen(object):
                     lo, hi = type_range(f["w"], f["sg"])
                     acts.append(["set", [f["name"]], rnd.randint(lo, hi)])
             c["pre_randomize"] = acts
+            ol = [f for f in c["fields"] if f["kind"] == "olist" and f.get("rand")]
+            if ol and c is self.classes[0] and rnd.random() < 0.4:
+                # post_randomize of the root appends a new object to a random list of objects (armed for the last call only):
+                # the newcomer takes no part in the call that is just ending
+                f = rnd.choice(ol)
+                c["post_randomize"] = [["append_new", f["name"], f["cls"]]]
+                self.arm_append = True
             if rnd.random() < 0.3 and len(c["fields"]) >= 2:
                 k = rnd.randint(1, len(c["fields"]) - 1)
                 base = {"name": c["name"] + "B", "fields": c["fields"][:k], "blocks": [], "pre_randomize": None, "post_randomize": None}
@@ -943,6 +950,10 @@ class Gen(object):
                     call["inline"] = [["expr", rel]]
                     call["free"] = [pa, pb]
             ops.append(call)
+        if getattr(self, "arm_append", False):
+            last = max(i for i, o in enumerate(ops) if o["op"] == "randomize")
+            if ops[last].get("free") is None:
+                ops.insert(last, {"op": "arm_append", "var": ops[last]["var"]})
         sc["ops"] = ops
         sc["root_cls"] = root["name"]
         return sc
@@ -1097,8 +1108,9 @@ def case_literal(sc, opi, res, lits):
                                                 (3 if res["outcome"] == "exc:ZeroDivisionError" or "Max size for array" in (res.get("err") or "") else 2))
     terms = clist([term_lit(t) for t in hard_terms(res["log"])])
     nl = lambda l: clist(["%d%%nat" % x for x in l])
-    pre = [h[0] for h in res["hooks"] if h[1] == "pre_randomize"]
-    post = [h[0] for h in res["hooks"] if h[1] == "post_randomize"]
+    # (an object the scenario does not know - one created during the call - is reported as -1: it is no object of the model)
+    pre = [h[0] if h[0] >= 0 else 999 for h in res["hooks"] if h[1] == "pre_randomize"]
+    post = [h[0] if h[0] >= 0 else 999 for h in res["hooks"] if h[1] == "post_randomize"]
     batches = clist([clist([term_lit(t) for t in b]) for b in post_hard_batches(res["log"])])
     doms = clist([copt(res.get("domains", {}).get(str(i)), lambda d: clist([cpair(cz(a), cz(b)) for a, b in d]))
                   for i in range(len(lits.fields))])
